@@ -792,3 +792,55 @@ func Unspill(v ssa.Value, at ssa.Instruction) ssa.Value {
 	}
 	return v
 }
+
+// WorldEdge builds an EdgeFilter for the hypothetical "integer value n equals val": at every If that
+// compares n with an integer constant, only the outcome consistent with n == val is followed.
+func WorldEdge(n ssa.Value, val int64) EdgeFilter {
+	return func(from *ssa.BasicBlock, succ int) bool {
+		iff, ok := from.Instrs[len(from.Instrs)-1].(*ssa.If)
+		if !ok {
+			return true
+		}
+		bo, ok := iff.Cond.(*ssa.BinOp)
+		if !ok {
+			return true
+		}
+		var c *ssa.Const
+		var left bool
+		if bo.X == n {
+			c, _ = bo.Y.(*ssa.Const)
+			left = true
+		} else if bo.Y == n {
+			c, _ = bo.X.(*ssa.Const)
+		}
+		if c == nil || c.Value == nil || c.Value.Kind() != constant.Int {
+			return true
+		}
+		k := c.Int64()
+		a, b := val, k
+		if !left {
+			a, b = k, val
+		}
+		var truth bool
+		switch bo.Op {
+		case token.GTR:
+			truth = a > b
+		case token.GEQ:
+			truth = a >= b
+		case token.LSS:
+			truth = a < b
+		case token.LEQ:
+			truth = a <= b
+		case token.EQL:
+			truth = a == b
+		case token.NEQ:
+			truth = a != b
+		default:
+			return true
+		}
+		if truth {
+			return succ == 0
+		}
+		return succ == 1
+	}
+}
